@@ -100,24 +100,58 @@ theorem upwind_neumann_consistent (g : MDG) (cp : Coupling) (neu : Nat → Bool)
   intro f hf ht
   obtain ⟨hB, htg⟩ := hu
   obtain ⟨hne, hneu⟩ := htg f hf ht
-  unfold gain
-  rw [hB]
-  unfold upwindNeu
-  have hrew : ∀ k, colSum (g.sd cp.prim).nc (g.sd cp.prim).D k *
-        (if k = f ∧ neu k = true then colSum (g.sd cp.prim).nc (g.sd cp.prim).D k else 0)
-      = (if f = k then colSum (g.sd cp.prim).nc (g.sd cp.prim).D k *
-          colSum (g.sd cp.prim).nc (g.sd cp.prim).D k else 0) := by
-    intro k
-    by_cases hk : f = k
-    · subst hk; simp [hneu]
-    · have : ¬ k = f := fun e => hk e.symm
-      simp only [this, hk, false_and, if_false]; grind
-  rw [sumTo_congr (fun k _ => hrew k), sumTo_indicator]
-  simp only [hf, if_true]
+  rw [hB, upwindNeu_eq_diag, gain_diag _ _ _ hf]
+  simp only [hneu, if_true]
   rcases h1 f hf with h | h | h
   · exact absurd h hne
   · rw [h]; grind
   · rw [h]; grind
+
+/-- The Tpfa `bound_flux` as coded (`t_b = 1` on Neumann and internal faces, times the sign of
+    the incident cell) is Neumann consistent on fracture faces under (H1). -/
+theorem tpfa_neumann_consistent (g : MDG) (cp : Coupling) (bnd neu : Nat → Bool) (tdir : Nat → Rat)
+    (h1 : H1 (g.sd cp.prim)) (hu : TpfaCoded g cp bnd neu tdir) : NeumannConsistent g cp := by
+  intro f hf ht
+  obtain ⟨hB, htg⟩ := hu
+  obtain ⟨hne, hb, hneu⟩ := htg f hf ht
+  rw [hB]
+  unfold tpfaBoundFlux
+  rw [gain_diag _ _ _ hf]
+  simp only [hb, hneu, if_true]
+  rcases h1 f hf with h | h | h
+  · exact absurd h hne
+  · rw [h]; grind
+  · rw [h]; grind
+
+/-- The differentiable-Tpfa boundary matrix WITH the internal boundary filter (the repaired
+    `AdTpfaFlux.diffusive_flux`) is Neumann consistent on fracture faces under (H1). -/
+theorem adtpfa_neumann_consistent (g : MDG) (cp : Coupling) (extNeu extDir intb : Nat → Bool)
+    (tf : Nat → Rat) (h1 : H1 (g.sd cp.prim)) (hu : AdTpfaCoded g cp extNeu extDir intb tf) :
+    NeumannConsistent g cp := by
+  intro f hf ht
+  obtain ⟨hB, htg⟩ := hu
+  obtain ⟨hne, hi, hen, hed⟩ := htg f hf ht
+  rw [hB]
+  unfold adTpfaBound
+  rw [gain_diag _ _ _ hf]
+  simp only [hi, hen, hed]
+  simp only [Bool.false_eq_true, if_false, false_or, if_true, and_self]
+  rcases h1 f hf with h | h | h
+  · exact absurd h hne
+  · rw [h]; grind
+  · rw [h]; grind
+
+/-- … and WITHOUT it (the code as shipped, finding C04/FouriersLawAd) a fracture face receives
+    nothing: `(1ᵀ D B)_f = 0`, so the interface flux that enters the fracture as a source is created
+    out of nothing. -/
+theorem adtpfa_shipped_gain_zero (s : Subdomain) (extNeu extDir intb : Nat → Bool) (tf : Nat → Rat)
+    (f : Nat) (hf : f < s.nf) (hen : extNeu f = false) (hed : extDir f = false) :
+    gain s (adTpfaBound false s.nc s.D extNeu extDir intb tf) f = 0 := by
+  unfold adTpfaBound
+  rw [gain_diag _ _ _ hf]
+  simp only [hen, hed]
+  simp only [Bool.false_eq_true, if_false, false_and]
+  grind
 
 /-- **C04** for purely advective balances as coded (mass balance): (H1) + (H2) + (H4) suffice. -/
 theorem total_residual_eq_total_accumulation_upwind (g : MDG) (hv : ValidIdx g)
@@ -129,6 +163,21 @@ theorem total_residual_eq_total_accumulation_upwind (g : MDG) (hv : ValidIdx g)
     totalResidual g = totalAccRate g - totalSrc g :=
   total_residual_eq_total_accumulation g hv h2
     (fun cp hcp => upwind_neumann_consistent g cp (neu cp.prim) (h1 cp.prim (hv cp hcp).1) (hu cp hcp)) h4
+
+/-- **C04** with every boundary matrix as coded (upwind `bound_transport_neu`, Tpfa `bound_flux`,
+    repaired differentiable Tpfa): (H1) + (H2) + (H4) suffice, for advective AND diffusive fluxes. -/
+theorem total_residual_eq_total_accumulation_coded (g : MDG) (hv : ValidIdx g)
+    (h1 : ∀ i, i < g.nsd → H1 (g.sd i))
+    (h2 : ∀ cp, cp ∈ g.cps → H2 g cp)
+    (hc : ∀ cp, cp ∈ g.cps → CodedBoundary g cp)
+    (h4 : ∀ i, i < g.nsd → ClosedBoundary (g.sd i)) :
+    totalResidual g = totalAccRate g - totalSrc g := by
+  refine total_residual_eq_total_accumulation g hv h2 (fun cp hcp => ?_) h4
+  have hp := h1 cp.prim (hv cp hcp).1
+  rcases hc cp hcp with ⟨neu, h⟩ | ⟨bnd, neu, tdir, h⟩ | ⟨en, ed, ib, tf, h⟩
+  · exact upwind_neumann_consistent g cp neu hp h
+  · exact tpfa_neumann_consistent g cp bnd neu tdir hp h
+  · exact adtpfa_neumann_consistent g cp en ed ib tf hp h
 
 /-- … and without external sources the residuals sum to the accumulation rate alone. -/
 theorem closed_no_source_conservation (g : MDG) (hv : ValidIdx g)
@@ -260,5 +309,29 @@ example : totalResidual exG = 9/2 ∧ totalAccRate exG = 9/2 := by decide +kerne
 def exCpAvg : Coupling := { exCp with Psm := fun c _ => if c = 0 then 1/2 else 0 }
 def exGAvg : MDG := { exG with cps := [exCpAvg] }
 example : totalResidual exGAvg - totalAccRate exGAvg = -1/4 := by decide +kernel
+
+/-- the same grid with the interface flux entering through the Tpfa `bound_flux` as coded -/
+def exCpTpfa : Coupling := { exCp with B := tpfaBoundFlux 2 exD (fun f => f != 1) (fun f => f != 1) (fun _ => 0) }
+def exGTpfa : MDG := { exG with cps := [exCpTpfa, exCp] }
+
+example : TpfaCoded exGTpfa exCpTpfa (fun f => f != 1) (fun f => f != 1) (fun _ => 0) := by
+  refine ⟨rfl, ?_⟩
+  unfold Target; decide +kernel
+
+/-- two interface fluxes on the same mortar grid (diffusive through Tpfa, advective through upwind) -/
+example : totalResidual exGTpfa = totalAccRate exGTpfa := by decide +kernel
+
+/-- finding C04/FouriersLawAd: with the differentiable-Tpfa matrix as shipped (no internal boundary
+    filter) the sum of the residuals is off by minus the total interface flux, `-(3/2 - 2) = 1/2`;
+    with the internal boundary filter it is conservative -/
+def exCpAd (withInternal : Bool) : Coupling :=
+  { exCp with B := adTpfaBound withInternal 2 exD (fun f => f == 0 || f == 2) (fun _ => false)
+                     (fun f => f == 3 || f == 4) (fun _ => 1) }
+example : totalResidual { exG with cps := [exCpAd false] } - totalAccRate exG = 1/2 := by decide +kernel
+example : totalResidual { exG with cps := [exCpAd true] } - totalAccRate exG = 0 := by decide +kernel
+example : AdTpfaCoded { exG with cps := [exCpAd true] } (exCpAd true) (fun f => f == 0 || f == 2)
+    (fun _ => false) (fun f => f == 3 || f == 4) (fun _ => 1) := by
+  refine ⟨rfl, ?_⟩
+  unfold Target; decide +kernel
 
 end PorepyVerif.C04
